@@ -372,7 +372,8 @@ class PolicyRefused(Exception):
     pass
 
 
-def run_ssh_client(host, port, entries, policy, host_key, entry="password", system_entries=None, user_via="file"):
+def run_ssh_client(host, port, entries, policy, host_key, entry="password", system_entries=None, user_via="file",
+                   raw_lines=None, raw_store="user"):
     """entries: [(name-in-file, hashed?, PKey)] written to a known_hosts file; returns observation.
     entry = which authentication entry point of SSHClient.connect is used: legacy password= / pkey= arguments, or
     auth_strategy= with a password / private-key source"""
@@ -394,12 +395,45 @@ def run_ssh_client(host, port, entries, policy, host_key, entry="password", syst
     try:
         hk.save(path)
         c = paramiko.SSHClient()
+        if raw_lines:
+            # literal known_hosts text (marker lines …) appended to the chosen store's file
+            if raw_store == "system" and system_entries is None:
+                system_entries = []
+            if raw_store == "user":
+                with open(path, "a") as f:
+                    f.write(raw_lines)
+        try:
+            return _connect_with_stores(c, paramiko, HostKeys, host, port, entries, policy, host_key, entry,
+                                        system_entries, user_via, raw_lines, raw_store, path, spath, cs, srv, called)
+        except paramiko.hostkeys.InvalidHostKey as e:
+            return {"outcome": "known-hosts-load-error", "server_saw": [x[0] for x in srv.log],
+                    "server_saw_credential": any(x[0] in ("password", "publickey") for x in srv.log),
+                    "server_saw_password": False, "raw": bytes(cs.raw), "policy_called": list(called),
+                    "detail": str(e)[:80]}
+    finally:
+        try:
+            ts.close()
+        except Exception:
+            pass
+        ts.join(5)
+        os.unlink(path)
+        os.unlink(spath)
+
+
+def _connect_with_stores(c, paramiko, HostKeys, host, port, entries, policy, host_key, entry, system_entries,
+                         user_via, raw_lines, raw_store, path, spath, cs, srv, called):
+    import os  # noqa: F401
+
+    if True:
         if system_entries is not None:
             # the system-wide store (load_system_host_keys), consulted before the user's
             shk = HostKeys()
             for name, hashed, key in system_entries:
                 shk.add(HostKeys.hash_host(name) if hashed else name, key.get_name(), key)
             shk.save(spath)
+            if raw_lines and raw_store == "system":
+                with open(spath, "a") as f:
+                    f.write(raw_lines)
             c.load_system_host_keys(spath)
         if user_via == "file":
             c.load_host_keys(path)
@@ -453,14 +487,6 @@ def run_ssh_client(host, port, entries, policy, host_key, entry="password", syst
         except Exception:
             pass
         return out
-    finally:
-        try:
-            ts.close()
-        except Exception:
-            pass
-        ts.join(5)
-        os.unlink(path)
-        os.unlink(spath)
 
 
 def run_transport_connect(given, host_key, with_password=True):
